@@ -25,6 +25,7 @@ def stepLine (s : Sess) (line : String) : Sess × List String :=
   | "NOTE" :: _ => (s, [])
   | "CONNECT" :: _ => (s, [])
   | "IO" :: _ => (s, [])
+  | "RAW" :: _ => (s, [])
   | ["PING"] => (s, ["PONG"])
   | ["DUMP"] => (s, [toString (repr s.cluster), "ENDDUMP"])
   | "END" :: props =>
